@@ -86,6 +86,7 @@ def fidelity(res):
                     "E8": lambda t: t.strip().startswith("|"),
                     "E9": lambda t: re.match(r"\s*let mut txn = self\.storage\.txn\([A-Za-z_0-9]+\)\?;\s*$", t) is not None,
                     "E11": lambda t: True,
+                    "STUB": lambda t: True,
                     "E14": lambda t: re.match(r"pub(\((crate|super)\))?$", t.strip()) is not None,
                     "E12": lambda t: t.strip().startswith("("),
                 }.get(rule, lambda t: False)(txt)
@@ -133,10 +134,19 @@ def trait_signature_check():
     return sorted(a)
 
 
-def trust_scan(unit, gen_text):
+def trust_scan(unit, gen_text, mp=None):
     found = []
     lines = gen_text.splitlines()
+    skip = set()
+    if mp is not None:
+        # a function stubbed on this tree (outside the verifier's reach) is reported as UNDECIDED, not as trusted base
+        for it in mp.get("items", []):
+            if it.get("stubbed") and it.get("gen_lines"):
+                for ln in range(it["gen_lines"][0] - 1, it["gen_lines"][1] + 1):
+                    skip.add(ln)
     for i, line in enumerate(lines):
+        if i in skip:
+            continue
         code = line.split("//")[0]
         for kind, rx in TRUST_PATTERNS:
             if rx.search(code):
@@ -152,7 +162,7 @@ def trust_scan(unit, gen_text):
     return found
 
 
-def check_trust(unit, found):
+def check_trust(unit, found, allow_gone=False):
     base_p = os.path.join(VERIF, "trusted_base.json")
     base = json.load(open(base_p)) if os.path.exists(base_p) else {}
     want = base.get(unit)
@@ -163,13 +173,15 @@ def check_trust(unit, found):
     if got != want:
         extra = [g for g in got if g not in want]
         missing = [w for w in want if w not in got]
+        if allow_gone and not extra:
+            # entries that lived in a function stubbed on this tree are absent: that is not a new assumption
+            return [{"kind": k, "text": t} for k, t in got]
         raise Inconclusive("trust scan: trusted base of unit %s differs from the committed list (new: %r, gone: %r)" % (unit, extra[:3], missing[:3]))
     return [{"kind": k, "text": t} for k, t in got]
 
 
 # ---------------------------------------------------------------------------------------------
-def run_unit(unit):
-    """extract + verify one unit (verus result cached on the generated text), returns an analysed result"""
+def _run_once(unit):
     gen_path, mp = vrun.extract(unit)
     text = open(gen_path).read()
     key = sha(text + "|verus-0.2026.09.13")
@@ -193,7 +205,45 @@ def run_unit(unit):
         json.dump(dump, open(cp, "w"))
     res["gen_text"] = text
     res["gen_sha"] = key
-    return analyse(unit, res)
+    return res
+
+
+def run_unit(unit):
+    """extract + verify one unit (verus result cached on the generated text), returns an analysed result.
+    A function whose body does not compile under Verus on this tree (construct outside the stand-ins, helper that is not
+    extracted, ...) is stubbed and the unit re-run: only that function's obligations become undecided."""
+    stubs = []
+    reasons = {}
+    os.environ.pop("TCSS_STUB", None)
+    try:
+        for _round in range(5):
+            if stubs:
+                os.environ["TCSS_STUB"] = ",".join(stubs)
+            res = _run_once(unit)
+            hard = [d for d in res["diags"] if not d["semantic"]]
+            if not hard:
+                break
+            new = []
+            for d in hard:
+                if d.get("fn") and d.get("file"):
+                    k = "%s#%s" % (d["file"], d["fn"])
+                    if k not in stubs and k not in new:
+                        new.append(k)
+                        reasons[d["fn"]] = "does not compile under Verus: " + d["message"][:200]
+                else:
+                    new = None
+                    break
+            if not new:
+                break   # cannot be attributed to extracted functions: the whole unit is inconclusive (analyse raises)
+            stubs += new
+        res["stubbed_by_driver"] = list(stubs)
+        out = analyse(unit, res)
+        for o in out["obligations"]:
+            if o["status"] == "undecided" and o["fn"] in reasons:
+                o["undecided_reason"] = reasons[o["fn"]]
+        return out
+    finally:
+        os.environ.pop("TCSS_STUB", None)
 
 
 def fn_breakdown(res):
@@ -261,7 +311,21 @@ def analyse(unit, res):
                     d["marker"] = True
                 unattributed.append(d)
         fname = it["path"]
+        if it.get("stubbed"):
+            for c in it.get("clauses", []):
+                if c["kind"] in ("requires", "closure_requires", "nested_requires", "ghost"):
+                    continue
+                obligations.append({"unit": unit, "id": c["id"], "tags": c["tags"], "kind": c["kind"], "fn": fname, "file": it["file"], "place": c["place"], "counted": True,
+                                    "status": "undecided", "diags": [], "text": c["text"][:300], "backend": "verus-z3", "solver_us": None, "rlimit": None,
+                                    "undecided_reason": it["stubbed"]})
+            obligations.append({"unit": unit, "id": "implicit@" + fname, "tags": sorted(fn_tags), "kind": "implicit (overflow, call-site preconditions, termination)", "fn": fname, "file": it["file"],
+                                "place": "body", "counted": True, "status": "undecided", "diags": [], "text": "body not verified on this tree", "backend": "verus-z3", "solver_us": None, "rlimit": None,
+                                "undecided_reason": it["stubbed"]})
+            continue
         fstat = fb.get(fname) or fb.get(fname.split("::")[-1]) or {}
+        # a closure without a contract in the sidecar has an UNKNOWN result for Verus: a failure in such a function
+        # may be nothing but that lack of knowledge
+        unmodelled = it.get("closures_total", 0) > it.get("closures_with_contract", 0)
         for c in it.get("clauses", []):
             if c["kind"] in ("requires", "closure_requires"):
                 kind = "precondition (assumed here, checked at call sites)"
@@ -272,7 +336,7 @@ def analyse(unit, res):
                 kind = c["kind"]
                 counted = True
             fails = named_fail.get(c["id"], [])
-            obligations.append({"unit": unit, "id": c["id"], "tags": c["tags"], "kind": kind, "fn": fname, "file": it["file"], "place": c["place"],
+            obligations.append({"unit": unit, "id": c["id"], "tags": c["tags"], "kind": kind, "fn": fname, "file": it["file"], "place": c["place"], "unmodelled_closure": unmodelled,
                                 "counted": counted, "status": "failed" if fails else "discharged", "diags": fails, "text": c["text"][:300],
                                 "backend": "verus-z3", "solver_us": fstat.get("time_us"), "rlimit": fstat.get("rlimit")})
         if it["kind"] == "fn":
@@ -288,7 +352,7 @@ def analyse(unit, res):
                 obligations.append({"unit": unit, "id": mid + "@" + fname, "tags": ds[0]["clause_tags"] or sorted(fn_tags), "kind": "call-site precondition", "fn": fname, "file": it["file"],
                                     "place": "call site", "counted": True, "status": "failed", "diags": ds, "text": mid, "backend": "verus-z3",
                                     "solver_us": fstat.get("time_us"), "rlimit": fstat.get("rlimit")})
-            obligations.append({"unit": unit, "id": "implicit@" + fname, "tags": sorted(fn_tags), "kind": "implicit (overflow, call-site preconditions, termination)", "fn": fname,
+            obligations.append({"unit": unit, "id": "implicit@" + fname, "tags": sorted(fn_tags), "kind": "implicit (overflow, call-site preconditions, termination)", "fn": fname, "unmodelled_closure": unmodelled,
                                 "file": it["file"], "place": "body", "counted": True, "status": "failed" if rest else "discharged", "diags": rest,
                                 "text": "every arithmetic operation, array access and call-site precondition in the body", "backend": "verus-z3",
                                 "solver_us": fstat.get("time_us"), "rlimit": fstat.get("rlimit")})
